@@ -7,7 +7,7 @@ needs = " ".join(sys.argv[4:])
 base = "/verif/seeded"
 os.makedirs(base, exist_ok=True)
 tag = os.path.basename(out).replace("out_", "")
-d = os.path.join(base, "%s_%s_%s" % (prop, tag, i) if tag != prop else "%s_%s" % (prop, i))
+d = os.path.join(base, os.environ["SEED_NAME"]) if os.environ.get("SEED_NAME") else os.path.join(base, "%s_%s_%s" % (prop, tag, i) if tag != prop else "%s_%s" % (prop, i))
 os.makedirs(d, exist_ok=True)
 shutil.copy(os.path.join(out, "patch%s.diff" % i), os.path.join(d, "patch.diff"))
 shutil.copy(os.path.join(out, "demo%s.py" % i), os.path.join(d, "demo.py"))
